@@ -50,7 +50,7 @@ func (d *DataSpec) Value() interface{} {
 	}
 	var build func(depth int) map[string]interface{}
 	build = func(depth int) map[string]interface{} {
-		m := map[string]interface{}{"V": string(d.V), "U": string(d.U), "C": d.C, "L": make([]int, d.L), "T": tx.Typed("Script", "var t=1;"), "I": tx.Typed("Identifier", "id1")}
+		m := map[string]interface{}{"V": string(d.V), "U": string(d.U), "C": d.C, "L": make([]int, d.L), "T": tx.Typed("Script", "var t=1;"), "I": tx.Typed("Identifier", "id1"), "SS": tx.Typed("StyleSheet", "p{color:red}")}
 		if d.Typ != "" {
 			m["V"] = tx.Typed(d.Typ, string(d.V))
 		}
@@ -392,6 +392,34 @@ var goodBodies = []string{
 	`{{with .Next}}<span>{{.V}}</span>{{end}}`,
 	`<input value="{{.V}}" {{if .C}}checked{{end}}>`,
 	`<img src="{{.U}}" alt="{{.V}}">`,
+	`<p>{{.V | html}}</p>`,
+	`<div>{{.V | print}}</div><a href="/p?q={{.V | urlquery}}">x</a>`,
+	`<b>{{print .V .C}}</b>`,
+	`<ul>{{template "tree" .}}</ul>`,
+	`<ol><li>{{template "tree2" .}}</li></ol>`,
+	`<textarea>{{template "hs" .}}</textarea>`,
+	`<script>{{template "hs" .}}</script>`,
+	`<title>{{template "hs" .}}</title><style>{{template "hss" .}}</style>`,
+	`<p title="{{template "ht"}}">x</p>`,
+	`<a href="/p?{{template "ht"}}">y</a>`,
+}
+
+// fixedHelpers are defined in every generated set. They are only reached through their callers (the generator never
+// executes them directly): tree/tree2 recurse (guarded by the data) through an element and call another helper;
+// hs/hss are needed inside different special elements; ht is text only and needed inside attribute values.
+var fixedHelpers = map[string]string{
+	"tree":  `<li>{{template "label" .V}}{{with .Next}}<ul>{{template "tree" .}}</ul>{{end}}</li>`,
+	"tree2": `{{template "label" .V}}{{with .Next}}</li><li>{{template "tree2" .}}{{end}}`,
+	"label": `<i>{{.}}</i>`,
+	"hs":    `{{.T}}`,
+	"hss":   `{{.SS}}`,
+	"ht":    `1<2 &amp; a&b`,
+}
+
+// NoDirect reports whether a template name must only be reached through callers.
+func NoDirect(name string) bool {
+	_, ok := fixedHelpers[name]
+	return ok
 }
 
 // runtime failures after partial output (analysis succeeds): typed-only context fed a string
@@ -404,8 +432,8 @@ var runtimeBadBodies = []string{
 
 var badBodies = map[string][]string{
 	"if-branches":        {`{{if .C}}<a href="{{end}}x`, `{{if .C}}<b title='{{else}}<b>{{end}}`},
-	"range-reentry":      {`{{range .L}}<a href="{{end}}`, `{{range .L}}<textarea>{{end}}`},
-	"nontext-end":        {`<a href="`, `<p>x</p><textarea>`, `<b `, `<a title='x`},
+	"range-reentry":      {`{{range .L}}<a href="{{end}}`, `{{range .L}}<textarea>{{end}}`, `<b{{range .L}}><script{{end}}>alert(1)</script>`, `<ul>{{range .L}}<li title="{{else}}<li title="{{end}}{{.V}}"></li></ul>`, `<a target="{{range .L}}{{.V}}x{{end}}">y</a>`},
+	"nontext-end":        {`<a href="`, `<p>x</p><textarea>`, `<b `, `<a title='x`, `<p>x</p><!-- TODO {{.V}}`, `<!--`, `<p>{{.V}}</p><script>var a=1;`, `<style>p{}`},
 	"nontext-end-call":   {`<p>{{template "h0" .}}</p><a href="`, `{{template "h0" .}}<b title='x`, `<i>{{template "h0" .}}</i><textarea>`},
 	"action-in-tag":      {`<a {{.V}}>`, `<a{{.V}}>`, `<a title="x" {{.V}}="y">`},
 	"unquoted-value":     {`<a title={{.V}}>`, `<a href=/x/{{.V}}>`},
@@ -416,6 +444,7 @@ var badBodies = map[string][]string{
 	"partial-charref":    {`<a href="/x&am{{.V}}">`, `<a href="/x&#{{.V}}">`},
 	"undefined-callee":   {`<p>{{template "nope" .}}</p>`},
 	"empty-callee":       {`<p>{{template "empty" .}}</p>`},
+	"indirect-recursion": {`{{define "ry"}}{{if .Next}}{{template "rz" .Next}}{{end}}3"{{end}}{{define "rz"}}{{template "ry" .}}{{end}}|||<select size="{{template "ry" .}}></select>`},
 	"recursion":          {`{{define "rec"}}{{if .Next}}<a href="{{template "rec" .Next}}{{end}}{{end}}|||{{template "rec" .}}`, `<a href="{{template "SELF" .}}`},
 	"predefined-escaper": {`{{.V | html | print}}`, `<a title={{.V | html}}>`},
 	"js-template":        {"<script>var a = `x</script>", "<script>`${</script>"},
@@ -500,6 +529,14 @@ func Gen(t *rapid.T, o Options) *History {
 	add := func(name, body string) {
 		text.WriteString(define(name, body))
 		g.names[0] = append(g.names[0], name)
+	}
+	var fks []string
+	for k := range fixedHelpers {
+		fks = append(fks, k)
+	}
+	sort.Strings(fks)
+	for _, k := range fks {
+		text.WriteString(define(k, fixedHelpers[k]))
 	}
 	nh := g.n(1, 2, "nhelpers")
 	for i := 0; i < nh; i++ {
